@@ -1142,7 +1142,12 @@ fn exec_entry<K: KeyT, V: ValT, const N: usize>(
         EChain::Key => {
             let e = crate::subj!(m.entry(key));
             let occ = matches!(e, Entry::Occupied(_));
-            let d = e.key().kd();
+            let kr = e.key();
+            if occ {
+                // an occupied entry exposes the *stored* key: a reference into the container value
+                s.ref_k(kr);
+            }
+            let d = kr.kd();
             vec![F::B(occ), F::K(d)]
         }
         EChain::OrInsert => {
